@@ -28,6 +28,7 @@ typedef __complex128 qc_t;
 #define W_HI (1e32)
 #define EXP_HI (80.0)
 #define TINY_LO (-6.0)
+#define INV_DEC (getenv("VF_INVDEC") ? atof(getenv("VF_INVDEC")) * 34 / 280 : 34.0) /* inverse families: the whole range (was 1e-3..1e3 before the extreme-magnitude repair) */
 #else
 #define EPSQ ((q_t)DBL_EPSILON)
 #define MAG_LO (-280.0)
@@ -36,6 +37,7 @@ typedef __complex128 qc_t;
 #define W_HI (1e290)
 #define EXP_HI (700.0)
 #define TINY_LO (-12.0)
+#define INV_DEC (getenv("VF_INVDEC") ? atof(getenv("VF_INVDEC")) : 280.0)
 #endif
 
 static int all_on; /* configuration has every A_HAVE_* switch on */
@@ -225,7 +227,7 @@ static void sample(vf_rng *r, int range, a_real *re, a_real *im, int *region)
     {
     case RG_WIDE: lo = MAG_LO; hi = MAG_HI; break;
     case RG_EXP: lo = TINY_LO; hi = log10(EXP_HI); break;
-    default: lo = TINY_LO / 2; hi = -TINY_LO / 2; break;
+    default: lo = -INV_DEC; hi = INV_DEC; break;
     }
     if (vf_chance(r, 1, 2)) { lo = lo < -3 ? -3 : lo; hi = hi > 3 ? 3 : hi; if (range == RG_EXP && hi > 1.5) { hi = 1.5; } }
     mag = pow(10.0, vf_uniform(r, lo, hi));
@@ -665,6 +667,11 @@ static void inverse_case(vf_rng *r)
             if (cr != 0 || ci != 0)
             {
                 c.real = cr; c.imag = ci;
+                {
+                    /* the intermediate product must be representable, otherwise the composition is not defined in this arithmetic */
+                    q_t pm = cabsq(zq) * cabsq(mk(cr, ci));
+                    if (!(pm > W_LO * 1e4 && pm < W_HI / 1e4)) { continue; }
+                }
                 a_complex_mul(&t, z, c); a_complex_div(&y, t, c);
                 if (judge("mul-div", "identity", SW_NONE, zq, 1, y, d)) { VF_COUNT("judged/mul-div"); }
                 a_complex_add(&t, z, c); a_complex_sub(&y, t, c);
